@@ -133,7 +133,7 @@ Fixpoint strip_trailing_zeros_rev (l : list N) : list N :=
   | 0 :: t => strip_trailing_zeros_rev t
   | _ => l
   end.
-Definition strip_trailing_zeros (l : list N) : list N := rev (strip_trailing_zeros_rev (rev l)).
+Definition strip_trailing_zeros (l : list N) : list N := frev (strip_trailing_zeros_rev (frev l)).
 
 (* pub fn convert_regular_rpu_to_av1_payload(data) ; data[0] on an empty slice panics *)
 Definition convert_regular_rpu_to_av1_payload (data : list N) : outcome (list N) :=
@@ -142,7 +142,7 @@ Definition convert_regular_rpu_to_av1_payload (data : list N) : outcome (list N)
   | d0 :: _ =>
       let* _ := ensure (d0 =? 25) in
       let trimmed := strip_trailing_zeros data in
-      match rev trimmed with
+      match frev trimmed with
       | [] => Panic site_rpu_end        (* all-zero input cannot pass the 0x19 test; kept total *)
       | last :: _ =>
           if negb (last =? 128) then Err
